@@ -14,6 +14,9 @@ import heapq
 from asyncio import events, tasks
 
 
+FOREIGN = [0]  # > 0 while any loop is in 'foreign thread' mode
+
+
 class SimError(Exception):
     """Harness-level failure (never a verdict about the code under test)."""
 
@@ -78,8 +81,14 @@ class SimLoop(asyncio.BaseEventLoop):
 
         def __enter__(self):
             self.loop.foreign_depth += 1
+            FOREIGN[0] += 1
+            # another thread has no running loop (and no current one: see seams, get_event_loop raises meanwhile)
+            self.saved_running = events._get_running_loop()
+            events._set_running_loop(None)
 
         def __exit__(self, *exc):
+            events._set_running_loop(self.saved_running)
+            FOREIGN[0] -= 1
             self.loop.foreign_depth -= 1
 
     def foreign_thread(self):
